@@ -35,7 +35,7 @@ use std::sync::Arc;
 
 pub struct C04;
 
-const TEMPLATES: [(&str, u32); 41] = [
+const TEMPLATES: [(&str, u32); 44] = [
     ("create_node", 10),
     ("create_path", 8),
     ("create_two", 3),
@@ -77,6 +77,9 @@ const TEMPLATES: [(&str, u32); 41] = [
     ("pipe_merge_with_set", 3),
     ("pipe_match_with_merge_rel", 3),
     ("pipe_create_with_set", 3),
+    ("match_create_parallel_rel", 12),
+    ("merge_rel_existing", 12),
+    ("merge_rel_existing_incoming", 4),
 ];
 
 fn dom(i: u64) -> V {
@@ -154,6 +157,14 @@ impl<'a> Ctx<'a> {
         } else {
             ks[(r / 8) as usize % ks.len()]
         }
+    }
+    /// Existing relationships whose ends both carry a key, in id order: (k of source, k of target, type, properties).
+    fn rels(&self) -> Vec<(i64, i64, String, std::collections::BTreeMap<String, String>)> {
+        let kk = |id: u64| match self.m.d.nodes.get(&id).and_then(|n| n.props.get("k")).map(|c| V::from_canon(c)) {
+            Some(V::I(k)) => Some(k),
+            _ => None,
+        };
+        self.m.d.edges.values().filter_map(|e| Some((kk(e.src)?, kk(e.dst)?, e.ty.clone(), e.props.clone()))).collect()
     }
     fn fresh(&mut self) -> i64 {
         let k = *self.next_k;
@@ -300,6 +311,58 @@ fn resolve(t: &str, c: &mut Ctx) -> Option<Stmt> {
             cl.push(Match(vec![PathPat::node(kp("a", ka)), PathPat::node(kp("b", kb))]));
             cl.push(Merge(path(np("a", vec![], vec![]), vec![(rp("r", Some(ty(c.a(2))), pr, true), np("b", vec![], vec![]))]), oc, om));
             ret = vec![rprop("a", "k"), RetItem::Type("r".into()), rprop("b", "k")];
+        }
+        "match_create_parallel_rel" => {
+            // one or two more relationships between the ends of an existing one (same type as a
+            // rule), so that a pair ends up with several parallel relationships that differ in `w`
+            let rels = c.rels();
+            if rels.is_empty() {
+                return None;
+            }
+            let (ka, kb, t0, _) = rels[c.a(0) as usize % rels.len()].clone();
+            let t1 = if c.a(1) % 4 == 0 { ty(c.a(1) / 4) } else { t0 };
+            let p1 = if c.a(5) % 3 == 0 { vec![] } else { vec![("w", Expr::Lit(dom(c.a(2))))] };
+            let two = c.a(4) % 2 == 1;
+            // (a relationship variable of a two-pattern CREATE is not visible to RETURN today: an
+            // engine refusal, which would only be counted — the two-pattern form returns the ends)
+            let mut pats = vec![path(np("a", vec![], vec![]), vec![(rp(if two { "" } else { "r" }, Some(t1.clone()), p1, true), np("b", vec![], vec![]))])];
+            if two {
+                pats.push(path(np("a", vec![], vec![]), vec![(rp("", Some(t1), vec![("w", Expr::Lit(dom(c.a(3))))], true), np("b", vec![], vec![]))]));
+            }
+            cl.push(Match(vec![PathPat::node(kp("a", ka)), PathPat::node(kp("b", kb))]));
+            cl.push(Create(pats));
+            ret = if two { vec![rprop("a", "k"), rprop("b", "k")] } else { vec![rprop("a", "k"), RetItem::Type("r".into()), rprop("r", "w"), rprop("b", "k")] };
+        }
+        "merge_rel_existing" | "merge_rel_existing_incoming" => {
+            // MERGE between the ends of an existing relationship, keyed on that relationship's own
+            // properties (it must be found, whichever of several parallel ones it is), on another
+            // value of `w`, or on nothing
+            let rels = c.rels();
+            if rels.is_empty() {
+                return None;
+            }
+            // three in four picks go to a relationship that has a parallel sibling (same ends and type), if any
+            let sib: Vec<usize> = (0..rels.len()).filter(|i| rels.iter().filter(|o| (o.0, o.1, &o.2) == (rels[*i].0, rels[*i].1, &rels[*i].2)).count() >= 2).collect();
+            let pick = if c.a(8) % 4 != 0 && !sib.is_empty() { sib[c.a(0) as usize % sib.len()] } else { c.a(0) as usize % rels.len() };
+            let (ka, kb, t0, props) = rels[pick].clone();
+            let own = |key: &'static str| props.get(key).map(|cv| (key, Expr::Lit(V::from_canon(cv))));
+            let pr: Vec<(&str, Expr)> = match c.a(1) % 5 {
+                0 | 1 => own("w").into_iter().collect(),
+                2 => own("w").into_iter().chain(own("v")).collect(),
+                3 => vec![("w", Expr::Lit(dom(c.a(2))))],
+                _ => vec![],
+            };
+            let t1 = if c.a(3) % 8 == 0 { ty(c.a(3) / 8) } else { t0 };
+            let oc = if c.a(4) % 2 == 0 { vec![SetItem::Prop("r".into(), "v".into(), Expr::Lit(dom(c.a(5))))] } else { vec![] };
+            let om = if c.a(6) % 3 == 0 { vec![SetItem::Prop("r".into(), "v".into(), Expr::Lit(dom(c.a(7))))] } else { vec![] };
+            cl.push(Match(vec![PathPat::node(kp("a", ka)), PathPat::node(kp("b", kb))]));
+            if t == "merge_rel_existing_incoming" {
+                // the same relationship written from its target: `(b)<-[r:T {..}]-(a)`
+                cl.push(Merge(path(np("b", vec![], vec![]), vec![(rp("r", Some(t1), pr, false), np("a", vec![], vec![]))]), oc, om));
+            } else {
+                cl.push(Merge(path(np("a", vec![], vec![]), vec![(rp("r", Some(t1), pr, true), np("b", vec![], vec![]))]), oc, om));
+            }
+            ret = vec![rprop("a", "k"), RetItem::Type("r".into()), rprop("r", "w"), rprop("b", "k")];
         }
         "merge_rel_scan" => {
             let kb = c.key(1);
@@ -566,6 +629,40 @@ fn gen_event(r: &mut Rng, clients: u64) -> Value {
     json!({"op":"stmt","t":t,"client":r.below(clients),"x":x,"ret":r.chance(2,3)})
 }
 
+/// For `MATCH (a {k: ..}), (b {k: ..}) MERGE (a)-[r:T {map}]->(b)` with a non-empty map: how many
+/// relationships of that type run between the two bound ends in `m`, how many of them carry the
+/// map, and whether the oldest one does.
+fn merge_rel_among_parallel(m: &ModelGraph, st: &Stmt) -> Option<(usize, usize, bool)> {
+    let mut bound: std::collections::BTreeMap<String, u64> = Default::default();
+    for c in &st.clauses {
+        match c {
+            Clause::Match(pats) => {
+                for p in pats {
+                    if let (true, Some(v), Some((_, Expr::Lit(kv)))) = (p.hops.is_empty(), &p.start.var, p.start.props.iter().find(|(k, _)| k == "k")) {
+                        let want = kv.canon();
+                        if let Some((id, _)) = m.d.nodes.iter().find(|(_, n)| want.is_some() && n.props.get("k") == want.as_ref()) {
+                            bound.insert(v.clone(), *id);
+                        }
+                    }
+                }
+            }
+            Clause::Merge(p, _, _) if p.hops.len() == 1 => {
+                let (r, n) = &p.hops[0];
+                let (a, b) = (bound.get(p.start.var.as_ref()?)?, bound.get(n.var.as_ref()?)?);
+                let (src, dst) = if r.out { (*a, *b) } else { (*b, *a) };
+                if r.props.is_empty() {
+                    return None;
+                }
+                let carries = |e: &crate::kit::dump::GEdge| r.props.iter().all(|(k, ex)| matches!(ex, Expr::Lit(v) if v.canon().is_some() && e.props.get(k) == v.canon().as_ref()));
+                let par: Vec<&crate::kit::dump::GEdge> = m.d.edges.values().filter(|e| e.src == src && e.dst == dst && Some(&e.ty) == r.ty.as_ref()).collect();
+                return Some((par.len(), par.iter().filter(|e| carries(e)).count(), par.first().map_or(false, |e| carries(e))));
+            }
+            _ => {}
+        }
+    }
+    None
+}
+
 /// Which part of the graph differs: computed from the two dumps only.
 fn diff_class(real: &crate::kit::dump::Dump, model: &crate::kit::dump::Dump) -> (&'static str, String) {
     let nodes = |d: &crate::kit::dump::Dump| {
@@ -629,7 +726,7 @@ impl Scenario for C04 {
         16
     }
     fn rule(&self) -> &'static str {
-        "history = <=14 statements, each an instance of one of 41 templates (CREATE node/path/two/chain, MATCH..CREATE rel, UNWIND CREATE, MERGE node by key / other label / no label / non-unique property, UNWIND MERGE with duplicate keys, MERGE rel / whole path over rows, SET literal / scan / from other variable / += map / null / rel property, REMOVE property/label, SET label, DELETE rel / node / node+rel, DETACH DELETE, five WITH pipelines) over labels A,B, types T,U, keys k,v,w, 8 values; 1-3 clients interleaved by pre-drawn picks; entry point = engine or RESP handler (knob). Non-trivial = at least 3 statements executed and compared, including one that matched existing data and wrote. Distinct = hash of the sequence of (template, clause shape) of the statements that ran."
+        "history = <=14 statements, each an instance of one of 44 templates (CREATE node/path/two/chain, MATCH..CREATE rel, UNWIND CREATE, MERGE node by key / other label / no label / non-unique property, UNWIND MERGE with duplicate keys, MERGE rel / whole path over rows, further relationships parallel to an existing one (differing in w) and MERGE rel keyed on an existing relationship's own property map (written from either end), SET literal / scan / from other variable / += map / null / rel property, REMOVE property/label, SET label, DELETE rel / node / node+rel, DETACH DELETE, five WITH pipelines) over labels A,B, types T,U, keys k,v,w, 8 values; 1-3 clients interleaved by pre-drawn picks; entry point = engine or RESP handler (knob). Non-trivial = at least 3 statements executed and compared, including one that matched existing data and wrote. Distinct = hash of the sequence of (template, clause shape) of the statements that ran."
     }
     fn real_components(&self) -> Vec<&'static str> {
         vec!["samyama::query::QueryEngine (parser, AST cache, planner, MutQueryExecutor, all write operators)", "GraphStore", "protocol::command::CommandHandler::handle_command + tokio::sync::RwLock (RESP runs)"]
@@ -648,7 +745,20 @@ impl Scenario for C04 {
         ]
     }
     fn required_probes(&self, _tier: Tier) -> Vec<&'static str> {
-        vec!["merge_matched", "merge_created", "merge_saw_row_created_earlier", "delete_connected_node_attempted", "multi_row_write", "statement_ran_after_other_client_changed_target", "resp_statement", "rows_compared"]
+        vec![
+            "merge_matched",
+            "merge_created",
+            "merge_saw_row_created_earlier",
+            "delete_connected_node_attempted",
+            "multi_row_write",
+            "statement_ran_after_other_client_changed_target",
+            "resp_statement",
+            "rows_compared",
+            "merge_rel_keyed_among_parallel_rels",
+            "merge_rel_keyed_on_a_later_parallel_rel",
+            "merge_rel_keyed_on_the_oldest_parallel_rel",
+            "merge_rel_keyed_on_none_of_the_parallel_rels",
+        ]
     }
     fn generate(&self, s: &mut Streams, _run_index: u64, _tier: Tier) -> Case {
         let mut case = Case::new("C04");
@@ -894,6 +1004,19 @@ impl Scenario for C04 {
                     }
                     if ap.input_rows_max > 1 {
                         o.probe("multi_row_write");
+                    }
+                    if let Some((parallel, carrying, oldest_carries)) = merge_rel_among_parallel(&m, &st) {
+                        if parallel >= 2 {
+                            o.probe("merge_rel_keyed_among_parallel_rels");
+                            if carrying == 1 {
+                                // exactly one of the parallel relationships is the match: it has to be
+                                // found wherever it sits in the adjacency list
+                                o.probe(if oldest_carries { "merge_rel_keyed_on_the_oldest_parallel_rel" } else { "merge_rel_keyed_on_a_later_parallel_rel" });
+                            }
+                            if carrying == 0 {
+                                o.probe("merge_rel_keyed_on_none_of_the_parallel_rels");
+                            }
+                        }
                     }
                     if ap.input_rows_max >= 1 && (ap.merge_matched > 0 || st.shape().starts_with("MATCH")) && real.canonical() != m.canonical() {
                         matched_and_wrote = true;
